@@ -168,7 +168,7 @@ func (c *c09) realTx(t *txRef) *pfcp.VTx {
 }
 
 func (c *c09) state() string {
-	return c.W.V.Dump(pfcp.DumpOpt{Label: c.Label}) + c.W.D.Dump()
+	return c.W.V.Dump(pfcp.DumpOpt{Label: c.Label, NoExtra: true}) + c.W.D.Dump()
 }
 
 func (c *c09) Apply(e seqx.Event) seqx.StepResult {
